@@ -16,7 +16,8 @@ using namespace vf;
 static Scratch g_scr;
 
 static const char *const DSET[10] = {"=", ":=", " ", " \t", " =", "\t =", "", "\n", "==", "\t"};
-static const char *const CSET[5] = {"#", ";", "#;", "", "#;!"};
+// (comment sets may contain blanks too: "any comment set")
+static const char *const CSET[7] = {"#", ";", "#;", "", "#;!", " #", "#\t"};
 
 struct WalkParams {
   std::string D, C;
@@ -219,6 +220,42 @@ static void walk(const std::string &a, const std::string &b, const WalkParams &w
     std::string da3 = walk_object(fa, n3);
     VF_CHECK(da3 == da, "input-modified", "an input of a merge changed");
   }
+  // the same bytes as members of a layered read: b as main file, a harmless first drop-in, then a, then b
+  // (a file that is refused after others have been accepted takes the cleanup path of the directory readers)
+  if ((a.size() + 3 * b.size()) % 3 == 0) {
+    g_case.tag("layered_members");
+    const std::string L = g_scr.dir + "/lay";
+    mkdir_p(L + "/usr");
+    mkdir_p(L + "/etc/fz.conf.d");
+    write_file(L + "/usr/fz.conf", b);
+    write_file(L + "/etc/fz.conf.d/10-ok.conf", "ok\n");
+    write_file(L + "/etc/fz.conf.d/20-a.conf", a);
+    write_file(L + "/etc/fz.conf.d/30-b.conf", b);
+#pragma GCC diagnostic push
+#pragma GCC diagnostic ignored "-Wdeprecated-declarations"
+    econf_file *lk = (econf_file *)-1;
+    econf_err el = econf_readDirs(&lk, (L + "/usr").c_str(), (L + "/etc").c_str(), "fz", "conf", wp.D.c_str(), wp.C.c_str());
+    check_rc(el, "econf_readDirs");
+    if (el == ECONF_SUCCESS && lk && lk != (econf_file *)-1) {
+      size_t nl = 0;
+      walk_object(lk, nl);
+    }
+    if (lk && lk != (econf_file *)-1) econf_freeFile(lk);
+    econf_file **hist = (econf_file **)-1;
+    size_t hn = 3;
+    econf_err eh = econf_readDirsHistory(&hist, &hn, (L + "/usr").c_str(), (L + "/etc").c_str(), "fz", "conf", wp.D.c_str(), wp.C.c_str());
+#pragma GCC diagnostic pop
+    check_rc(eh, "econf_readDirsHistory");
+    VF_CHECK(eh == el, "entry-points-disagree", "econf_readDirs rc=" << el << " but econf_readDirsHistory rc=" << eh << " on the same tree");
+    if (eh == ECONF_SUCCESS && hist && hist != (econf_file **)-1) {
+      for (size_t i = 0; i < hn; i++) {
+        size_t nh = 0;
+        if (hist[i]) walk_object(hist[i], nh);
+        econf_freeFile(hist[i]);
+      }
+      free(hist);
+    }
+  }
 }
 
 // ------------------------------------------------------------------ near-grammar decoder (choices)
@@ -232,7 +269,7 @@ static void run(Src &s) {
   if (mode == 2) {
     // raw bytes from the choices
     wp.D = DSET[s.below(10)];
-    wp.C = CSET[s.below(5)];
+    wp.C = CSET[s.below(7)];
     int n = (int)s.below(120);
     static const char pool[] = "=:#;[]\" \t\n\\k1vx0-";
     for (int i = 0; i < n; i++) {
@@ -269,7 +306,7 @@ static void run(Src &s) {
     if (s.chance(15)) {
       // read with another delimiter/comment set than the one the file was written for
       wp.D = DSET[s.below(10)];
-      wp.C = CSET[s.below(5)];
+      wp.C = CSET[s.below(7)];
       g_case.tag("foreign_delimiters");
     }
   }
@@ -317,7 +354,7 @@ extern "C" int LLVMFuzzerTestOneInput(const uint8_t *data, size_t size) {
   if (size < 4) return 0;
   WalkParams wp;
   wp.D = DSET[data[0] % 10];
-  wp.C = CSET[data[1] % 5];
+  wp.C = CSET[data[1] % 7];
   wp.opt = data[2] % 4;
   std::string all((const char *)data + 4, size - 4);
   size_t split = all.size() ? (size_t)data[3] * all.size() / 255 : 0;
